@@ -340,10 +340,15 @@ def pick_entities(R, ents, limit):
     cand = [x for x in ents if x.renameable and any(o.role == "d" for o in x.occs)]
     if limit is None or len(cand) <= limit:
         return cand
-    must = [x for x in cand if x.finding or any(o.site for o in x.occs)]
+    must = [x for x in cand if x.finding or any(o.site and o.site not in ("use_item", "attr_spec_alias") for o in x.occs)]
+    # aliases, their targets and items named in by-item use clauses: a sample in every project
+    focus = [x for x in cand if x not in must and (getattr(x, "focus", False)
+                                                   or any(o.site in ("use_item", "attr_spec_alias") for o in x.occs))]
+    R.shuffle(focus)
+    must += focus[:4]
     cross = [x for x in cand if getattr(x, "cross", False) and x not in must and len(set(o.file for o in x.occs)) > 1]
     R.shuffle(cross)
-    must += cross[:3]
+    must += cross[:2]
     cand = [x for x in cand if x not in must]
     by = {}
     for x in cand:
@@ -394,7 +399,7 @@ def main(tier, replay=None):
         nproj = 60 if tier == "quick" else 150
         plan = [(seed(), i, family_of(seed(), i)) for i in range(nproj)]
         only_ent = None
-        limit = 6 if tier == "quick" else None
+        limit = 4 if tier == "quick" else None
     corpus = load_corpus()
     if replay:
         corpus = [c for c in corpus if rp["seed"] == "corpus" and c["idx"] == rp["idx"]]
@@ -801,8 +806,8 @@ def main(tier, replay=None):
                         dp = shift.loc(en["decl_pos"]) if shift else (None if en["decl_pos"] is None else [rb(en["decl_pos"][0]), en["decl_pos"][1]])
                         ep = shift.loc(en["ent_pos"]) if shift else (None if en["ent_pos"] is None else [rb(en["ent_pos"][0]), en["ent_pos"][1]])
                         nm = en["name"].lower()
-                        out_.append((rb(f), json.dumps(rr), json.dumps(dp), json.dumps(ep), en["dk"],
-                                     new_l if renamed else nm))
+                        out_.append((rb(f), tuple(rr), "" if dp is None else (dp[0], tuple(dp[1])),
+                                     "" if ep is None else (ep[0], tuple(ep[1])), en["dk"], new_l if renamed else nm))
                 return sorted(out_)
             br = refset(b, sh, lambda p: p)
             ar = refset(a, None, rebase)
@@ -823,9 +828,13 @@ def main(tier, replay=None):
                     dp = pos_of.get(k)
                     if dp is None:
                         continue
-                    key_ = json.dumps(shift.loc(dp) if shift else [rb(dp[0]), dp[1]])
+                    kk = shift.loc(dp) if shift else [rb(dp[0]), dp[1]]
+                    key_ = (kk[0], tuple(kk[1]))
                     # several entities may share one declaration position (file mapped to two libraries)
-                    m.setdefault(key_, []).append(sorted(json.dumps(shift.loc(p) if shift else [rb(p[0]), p[1]]) for p in v["far"]))
+                    if shift:
+                        m.setdefault(key_, []).append(sorted((p[0], tuple(shift.rng(p[0], p[1]))) for p in v["far"]))
+                    else:
+                        m.setdefault(key_, []).append(sorted((rb(p[0]), tuple(p[1])) for p in v["far"]))
                 for key_ in m:
                     m[key_].sort()
                 return m
@@ -868,7 +877,7 @@ def main(tier, replay=None):
         "overloaded functions with declaration+body, procedures, ports/generics with named association, components, "
         "entities/architectures/packages/configurations referenced across files, labels, record elements, overloaded enumeration "
         "literals, aliases, attributes, hidden and prefix-sharing names, mixed-case spellings, names inside comments and strings, "
-        "UTF-16 columns behind supplementary-plane characters in files opened by the client); quick: 60 projects x (6 entities round-robin over kinds + the cross-file and finding-site entities) "
+        "UTF-16 columns behind supplementary-plane characters in files opened by the client); quick: 60 projects x (4 entities round-robin over kinds + samples of the cross-file, alias / by-item-use and finding-site entities) "
         "(round-robin over kinds) x every occurrence kind as cursor (declaration, body, end identifier, one reference per file), thorough: 150 projects x every entity likewise; a case is non-trivial when the "
         "rename produces at least two edits; distinct by project, entity and edit set")
     res.coverage["explanation"] = (
